@@ -42,6 +42,8 @@ pub struct MockApi {
     pub fail_methods: std::collections::BTreeSet<String>,
     /// optional resource ledger: amounts per bucket / vault node, divisibility and supply per resource; when enabled the
     /// bucket / vault / resource-manager methods are answered from it instead of from scripted answers
+    /// the actor's index collections: (collection index, encoded key) -> encoded value
+    pub index: BTreeMap<(u8, Vec<u8>), Vec<u8>>,
     pub ledger: bool,
     pub amounts: BTreeMap<NodeId, Decimal>,
     pub divisibility: BTreeMap<GlobalAddress, u8>,
@@ -228,10 +230,11 @@ impl SystemActorIndexApi<RuntimeError> for MockApi {
         unimplemented!("MockApi::actor_index_drain")
     }
     fn actor_index_insert( &mut self, object_handle: ActorStateHandle, collection_index: CollectionIndex, key: Vec<u8>, buffer: Vec<u8>, ) -> Result<(), RuntimeError> {
-        unimplemented!("MockApi::actor_index_insert")
+        self.index.insert((collection_index, key), buffer);
+        Ok(())
     }
     fn actor_index_remove( &mut self, object_handle: ActorStateHandle, collection_index: CollectionIndex, key: Vec<u8>, ) -> Result<Option<Vec<u8>>, RuntimeError> {
-        unimplemented!("MockApi::actor_index_remove")
+        Ok(self.index.remove(&(collection_index, key)))
     }
     fn actor_index_scan_keys( &mut self, object_handle: ActorStateHandle, collection_index: CollectionIndex, limit: u32, ) -> Result<Vec<Vec<u8>>, RuntimeError> {
         unimplemented!("MockApi::actor_index_scan_keys")
